@@ -45,7 +45,26 @@ func genC12(c *Ctx) {
 			if !pk1.Equals(pk2) || !pk1.Equals(sk2.PublicKey()) {
 				return "pk-cache-inconsistent"
 			}
-			return "ok " + hx(sk.Encode()) + " " + hx(pk1.Encode())
+			// the encodings handed out are the caller's: they are overwritten, the keys are encoded again and compared
+			// with a decoded copy (a key that caches what it handed out, by reference, now answers with the edits)
+			e1, f1 := sk.Encode(), pk1.Encode()
+			skHex, pkHex := hx(e1), hx(f1)
+			for i := range e1 {
+				e1[i] ^= 0x3C
+			}
+			for i := range f1 {
+				f1[i] ^= 0xC3
+			}
+			if hx(sk.Encode()) != skHex || hx(sk.PublicKey().Encode()) != pkHex || hx(pk2.Encode()) != pkHex {
+				return "encoding-changed-after-caller-edit"
+			}
+			if dec, derr := crypto.DecodePublicKey(a, unhexOr(pkHex)); derr != nil || !dec.Equals(pk1) || !pk1.Equals(dec) || pk1.String() != dec.String() {
+				return "key-differs-from-decoded-copy-after-caller-edit"
+			}
+			if !sk.Equals(sk2) || !sk.PublicKey().Equals(sk2.PublicKey()) {
+				return "keys-differ-after-caller-edit"
+			}
+			return "ok " + skHex + " " + pkHex
 		})
 		c.Case(class+"/"+name, fmt.Sprintf("keygen %s %s", name, hx(seed)), ans)
 	}
